@@ -74,7 +74,7 @@ def _sub_symbols_in_number(
 def _sub_symbols_in_expression(
     parameter: sympy.Expr, symbols_map: Dict[sympy.Symbol, Parameter]
 ) -> sympy.Expr:
-    return parameter.subs(symbols_map)
+    return parameter.subs(symbols_map, simultaneous=True)
 
 
 @sub_symbols.register
